@@ -1367,3 +1367,37 @@ def gen_decl(g):
 
 
 PROFILES['decl'] = gen_decl
+
+
+# ---------------------------------------------------------------------------
+# C09: gear force and stresses
+
+def gen_stress(g):
+    r = g.rng
+    scn, model, chain = base_scenario(
+        g, 'stress', n_target=r.choice([3, 4, 5, 6, 8]),
+        force_worm=True if g.chance(0.4) else None,
+        data_level=r.choice([2, 2, None, None, None]))
+    # widen the teeth range: beyond the end of the Lewis table too
+    for e in scn['elements']:
+        if 'z' in e and g.chance(0.25):
+            e['z'] = r.choice([10, 11, 13, 23, 44, 99, 101, 149, 250, 399,
+                               499, 500, 501, 600])
+    model = model_of(scn['elements'], scn['decls'])
+    k = rm.rate_constant(model, chain)[0]
+    scn['load'] = gen_load(g, model, chain,
+                           overload=r.choice([0.2, 0.8, 1.5, 4.0]),
+                           families=r.choice([['const'], ['const', 'visc'],
+                                              ['const', 'sintime'], ['step']]))
+    scn['init'] = gen_init(g, model, chain)
+    g.cfg = dict(g.cfg)
+    g.cfg['steps'] = g.cfg.get('steps', (2, 30))
+    sched = [gen_run(g, k, kdt=g.logu(0.02, 1.0))]
+    if g.chance(0.3):
+        sched.append(gen_run(g, k, kdt=g.logu(0.02, 1.0)))
+    scn['schedule'] = sched
+    add_control(g, scn, model, chain, p=0.3, kinds=[['Scripted']][0])
+    return scn
+
+
+PROFILES['stress'] = gen_stress
